@@ -19,7 +19,7 @@ META = {
         "every trie hit (adaptor chains contain no filter/take/skip); (exact) exact-surface lookup keeps only entries whose "
         "end equals the query length. NOT decided: correctness of the double-array traversal and of yada's builder; "
         "'each exactly once' for arbitrary key sets."),
-    "decided": ["indexed-only", "id-is-position", "record-format", "dic-id", "all-layers", "exact"],
+    "decided": ["indexed-only", "id-is-position", "record-format", "dic-id", "all-layers", "exact", "trie-unit-format"],
     "not_decided": ["double-array traversal / yada builder correctness", "exactly-once for arbitrary key sets"],
 }
 
@@ -28,7 +28,7 @@ REORDER = {"filter", "filter_map", "rev", "skip", "take", "step_by", "skip_while
 
 @rule("C04.indexed-only", "IndexBuilder::add is called only under RawLexiconEntry::should_index(), which is `left_id >= 0`")
 def indexed_only(db, ctx):
-    f = db.one("write_index", "DictBuilder")
+    f = db.view(db.one("write_index", "DictBuilder"))
     adds = [(c, ps) for c, ps in walk(f.hir) if is_call(c) and path_ends(callee(c), "IndexBuilder::add")]
     if not adds:
         raise AnchorMissing("write_index: IndexBuilder::add call")
@@ -55,9 +55,12 @@ def indexed_only(db, ctx):
 @rule("C04.id-is-position", "the word id handed to the index is the enumerate() position over LexiconReader::entries(); the "
                             "params and word-info writers iterate the same slice without reordering adaptors")
 def id_is_position(db, ctx):
-    f = db.one("write_index", "DictBuilder")
-    from ..loops import chain as lchain, filter_atoms
-    for n, (it, pat, body), ps in _loops(f):
+    f = db.view(db.one("write_index", "DictBuilder"))
+    from ..loops import chain as lchain, filter_atoms, iterations
+    for itn in iterations(f.hir):
+        n, it, pat, body = itn["node"], itn["it"], itn["pat"], itn["body"]
+        if isinstance(pat, list):      # closure form: the element is the first closure parameter
+            pat = pat[0] if pat else {}
         if not mentions(body, is_call_to("IndexBuilder::add")):
             continue
         ch, base = lchain(db, f, it)
@@ -78,17 +81,18 @@ def id_is_position(db, ctx):
                 a = call_args(c)
                 ok = peel_casts(a[1]).get("lid") == idx_lid and lit_int(a[0]) == 0
                 ctx.ob("write_index|wid=position", ok, "word id is built as `%s` (must be dictionary 0, enumerate position)" % render(c), fn=f, site=c.get("sp"))
-    w = db.one("write", "LexiconWriter")
-    loops = list(_loops(w))
+    w = db.view(db.one("write", "LexiconWriter"))
+    from ..inline import nf
+    its = [i_ for i_ in iterations(w.hir) if mentions(i_["body"], is_call_to("write_params")) or mentions(i_["body"], is_call_to("write_word_info"))]
     n_ok = 0
-    for n, (it, pat, body), ps in loops:
-        names, base = _chain(it)
-        b = peel(base)
-        plain = (b.get("k") == "Field" and b.get("name") == "entries") and not (set(names) & REORDER)
+    for i_ in its:
+        ch, base = lchain(db, w, i_["it"])
+        names = [m for m, _ in ch]
+        plain = nf(base) == "self.entries" and not (set(names) & REORDER)
         n_ok += 1 if plain else 0
-        ctx.ob("LexiconWriter::write|loop#%d" % n_ok, plain, "writer loop iterates `%s` (must be self.entries in order)" % render(it), fn=w, site=n.get("sp"))
-    ctx.ob("LexiconWriter::write|two-passes", len(loops) == 2 and mentions(loops[0][1][2], is_call_to("write_params")) and mentions(loops[1][1][2], is_call_to("write_word_info")),
-           "LexiconWriter::write has a params pass then a word-info pass over the same slice: %d loops" % len(loops), fn=w)
+        ctx.ob("LexiconWriter::write|loop#%d" % n_ok, plain, "writer loop iterates `%s` (must be self.entries in order)" % render(i_["it"]), fn=w, site=i_["node"].get("sp"))
+    ctx.ob("LexiconWriter::write|two-passes", len(its) == 2 and mentions(its[0]["body"], is_call_to("write_params")) and mentions(its[1]["body"], is_call_to("write_word_info")),
+           "LexiconWriter::write has a params pass then a word-info pass over the same slice: %d passes" % len(its), fn=w)
     wl = db.one("write_lexicon", "DictBuilder")
     ok = mentions(wl.hir, is_call_to("LexiconReader::entries"))
     ctx.ob("write_lexicon|same-slice", ok, "LexiconWriter is constructed over self.lexicon.entries(): %s" % ok, fn=wl)
@@ -127,20 +131,29 @@ def record_format(db, ctx):
         adv = any(c.get("k") == "MethodCall" and c.get("method") == "offset" and lit_int(c["args"][0]) == 1 for c, _ in walk(f.hir))
         ctx.ob("WordIdIter::next|u32-step", ru and adv, "WordIdIter::next reads an unaligned u32 (%s) and advances by one element (%s)" % (ru, adv), fn=f)
     # offset recorded before the write
-    b = db.one("build_word_id_table", "IndexBuilder")
-    for n, (itx, pat, body), ps in _loops(b):
-        stmts = body.get("stmts", [])
+    b = db.view(db.one("build_word_id_table", "IndexBuilder"))
+    from ..loops import iterations
+    from ..guards import mentions as _m
+    for itn in iterations(b.hir):
+        body = peel(itn["body"])
+        if not _m(body, is_call_to("write_u32_array")):
+            continue
+        stmts = list(body.get("stmts", [])) + ([{"k": "Expr", "e": body["expr"]}] if "expr" in body else [])
         i_off = i_wr = None
         for i, st in enumerate(stmts):
             e2 = st.get("e") or st.get("init") or {}
-            if e2.get("k") == "Assign" and peel(e2["l"]).get("name") == "offset" and "len" in render(e2["r"]):
+            if e2.get("k") == "Assign" and peel(e2["l"]).get("k") == "Field" and peel(e2["l"]).get("name") == "offset" and \
+                    peel(e2["r"]).get("k") == "MethodCall" and peel(e2["r"]).get("method") == "len":
                 i_off = i
-            if mentions(e2, is_call_to("write_u32_array")) and i_wr is None:
+            if _m(e2, is_call_to("write_u32_array")) and i_wr is None:
                 i_wr = i
         ctx.ob("build_word_id_table|offset-before-write", i_off is not None and i_wr is not None and i_off < i_wr,
                "entry.offset := result.len() at statement %s, write_u32_array at statement %s (offset must be taken first)" % (i_off, i_wr), fn=b)
-    bt = db.one("build_trie", "IndexBuilder")
-    ok = any(c.get("k") == "MethodCall" and c.get("method") == "push" and "offset" in render(c["args"][0]) for c, _ in walk(bt.hir))
+    bt = db.view(db.one("build_trie", "IndexBuilder"))
+    from ..db import walk_x
+    ok = any(c.get("k") == "MethodCall" and c.get("method") == "push" and c["args"]
+             and any(x.get("k") == "Field" and x.get("name") == "offset" and (x.get("adt") or "").endswith("IndexEntry") for x, _ in walk_x(c["args"][0]))
+             for c, _ in walk(bt.hir))
     ctx.ob("build_trie|value=offset", ok, "trie entries are (key, entry.offset): %s" % ok, fn=bt)
     lk = db.one("lookup", "Lexicon")
     ok = any(is_call(c) and path_ends(callee(c), "WordIdTable::entries") and "value" in render(c) for c, _ in walk(lk.hir))
@@ -212,3 +225,44 @@ def exact(db, ctx):
             if c and c[0] == "Ne" and "end" in render(c[1]) + render(c[2]) and "query.len()" in render(c[1]) + render(c[2]):
                 ok = True
     ctx.ob("MorphemeList::lookup|end==len", ok, "entries with entry.end != query.len() are skipped: %s" % ok, fn=f)
+
+
+@rule("C04.trie-unit-format", "the double-array unit accessors of the reader (label / has_leaf / value / offset) implement the 32-bit unit layout the "
+                              "index is written in (yada 0.5 `Unit`: LABEL bits 0-7, HAS_LEAF bit 8, EXTEND bit 9, OFFSET bits 10-30, IS_LEAF bit 31; leaf: "
+                              "VALUE bits 0-30) — constant folding of each accessor at probe units (every single bit, every bit with bit 9 / bit 31, 256 mixed words)")
+def trie_unit_format(db, ctx):
+    from ..flow import pure_eval
+    ref = {
+        "label": lambda u: u & ((1 << 31) | 0xFF),       # a leaf unit never compares equal to a text byte
+        "has_leaf": lambda u: ((u >> 8) & 1) == 1,
+        "value": lambda u: u & 0x7FFFFFFF,
+        "offset": lambda u: ((u >> 10) << ((u & (1 << 9)) >> 6)),
+    }
+    probes = [0, 0xFFFFFFFF, 0x7FFFFFFF, 0x80000000, 0xFF, 0x100, 0x200, 0x3FF, 0x400]
+    for b in range(32):
+        probes += [1 << b, (1 << b) | (1 << 9), (1 << b) | (1 << 31), (1 << b) | 0x61, (1 << b) | (1 << 31) | 0x61, (1 << b) | (1 << 8)]
+    x = 0x2545F491
+    for _ in range(256):
+        x = (x * 1103515245 + 12345) & 0xFFFFFFFF
+        probes.append(x)
+    for nm, rf in ref.items():
+        f = db.one(nm, "Trie")
+        bad = []
+        unknown = False
+        for u in probes:
+            got = pure_eval(db, f, [u])
+            if got is None:
+                unknown = True
+                break
+            want = rf(u)
+            if isinstance(want, int) and not isinstance(want, bool):
+                want &= (1 << 64) - 1
+            if got != want:
+                bad.append((hex(u), got, want))
+        ctx.ob("Trie::%s|unit-layout" % nm, not unknown and not bad,
+               "Trie::%s %s" % (nm, "is not a pure bit expression the folder understands (fail-closed)" if unknown else
+                                ("agrees with the unit layout on %d probe units" % len(probes) if not bad else
+                                 "differs from the unit layout, e.g. unit %s -> %s, layout says %s (%d of %d probes): a leaf unit whose low byte equals the "
+                                 "next text byte would be followed as a transition / a wrong child is visited" % (bad[0][0], bad[0][1], bad[0][2], len(bad), len(probes)))),
+               fn=f)
+    ctx.floor(4)
